@@ -187,8 +187,9 @@ Definition there_is_arroba_after_last_quotes (s : str) : bool :=
 
 Definition QHH : str := Str """^^".     (* the three characters: double quote, caret, caret *)
 
-(** [decide_literal_type(a_literal, base_namespace=None)]; [inr] = RuntimeError *)
-Definition decide_literal_type (a : str) : str + cerr :=
+(** [decide_literal_type(a_literal, base_namespace=None)]; [inr] = RuntimeError.
+    Old text: every test searches the whole token. *)
+Definition decide_literal_type_old (a : str) : str + cerr :=
   if there_is_arroba_after_last_quotes a then inl c_LANG_STRING_TYPE
   else if negb (contains QHH a) then inl c_STRING_TYPE
   else if contains (Str "xsd:") a then inl (c_XSD_NAMESPACE ++ slice_from a (find (Str "xsd:") a + 4))
@@ -200,6 +201,28 @@ Definition decide_literal_type (a : str) : str + cerr :=
        then inl (slice a (find QHH a + 4) (-1))
   else if suffixb (Str ">") (strip a) then inl (slice a (find QHH a + 4) (-1))
   else inr CERuntime.
+
+(** Repaired text (C06 repair B): the kind is read from what follows the last
+    double quote ([suffix]; empty for a token without quote) -- [@...],
+    [^^prefix:local], [^^<iri>] or nothing. *)
+Definition decide_literal_type_new (a : str) : str + cerr :=
+  let q := rfind (Str """") a in
+  let suffix := if Z.geb q 0 then strip (slice_from a (q + 1)) else [] in
+  if prefixb (Str "@") suffix then inl c_LANG_STRING_TYPE
+  else if negb (prefixb (Str "^^") suffix) then
+    if there_is_arroba_after_last_quotes a then inl c_LANG_STRING_TYPE else inl c_STRING_TYPE
+  else
+    let t := slice_from suffix 2 in
+    if prefixb (Str "xsd:") t then inl (c_XSD_NAMESPACE ++ slice_from t 4)
+    else if prefixb (Str "rdf:") t then inl (c_RDF_SYNTAX_NAMESPACE ++ slice_from t 4)
+    else if prefixb (Str "dt:") t then inl (c_DT_NAMESPACE ++ slice_from t 3)
+    else if prefixb (Str "geo:") t then inl (c_OPENGIS_NAMESPACE ++ slice_from t 4)
+    else if prefixb (Str "<") t && suffixb (Str ">") t then inl (slice t 1 (-1))
+    else inr CERuntime.
+
+(** which of the two texts the source has: [Gen.Consts.c08_dlt_from_suffix] *)
+Definition decide_literal_type (a : str) : str + cerr :=
+  if c08_dlt_from_suffix then decide_literal_type_new a else decide_literal_type_old a.
 
 (** [remove_corners(a_uri, raise_error_if_no_corners=True)]; [inr] = ValueError *)
 Definition remove_corners (u : str) : str + cerr :=
